@@ -2,7 +2,7 @@
    C is the type of manifest file contents (bytes), cdig its reference digest (c4 of the bytes) -- both abstract: the
    theorems hold for every content type and digest function, so "every byte position and kind of edit" is covered by
    quantifying over all contents; an edit that keeps the digest is a collision of the reference hash. *)
-From MHL Require Import Model.Commands Gen.Generated Proofs.BaseFacts Proofs.LoadFacts.
+From MHL Require Import Model.Commands Gen.Generated Proofs.BaseFacts Proofs.LoadFacts Gen.GeneratedFns Proofs.SourceExitFacts.
 
 (* the chain check passes exactly when every chain entry names an existing manifest whose content has the recorded digest *)
 Theorem C05_chain_check_exact : forall C cdig files ces,
@@ -29,6 +29,16 @@ Print Assumptions C05_modified_detected.
 Theorem C05_exit_codes :
   load_err_code ErrModified = 31%Z /\ load_err_code ErrMissingManifest = 33%Z /\ load_err_code ErrNoChain = 32%Z.
 Proof. exact load_err_codes. Qed.
+
+(* THE CHECK IS THE SOURCE'S.  translator/gen.py translates, on every run, the part of MHLHistory.load_from_path that looks
+   at the chain (the missing-chain test; `for generation in history.chain.generations`: the file must exist, its hash is
+   compared with the recorded one; which exception is raised where -- the classes mapped to the regenerated exit codes)
+   into src_check_chain (Gen/GeneratedFns.v; `os.path.exists` / `hasher.hash_file` of the expected file are mapped to the
+   manifest with the entry's number and the digest of its content).  It is the model's check_chain, code for code. *)
+Theorem C05_source_chain_check_is_the_models : forall C cdig (h : hist C),
+  src_check_chain C cdig h = option_map load_err_code (check_chain C cdig h).
+Proof. exact src_check_chain_is_model. Qed.
+Print Assumptions C05_source_chain_check_is_the_models.
 
 (* in the root history and in every nested history, at any depth: loading succeeds only if EVERY history of the tree
    passes the chain check *)
